@@ -42,13 +42,18 @@ var c07Shapes = []string{
 	"2024-01-17=2024-01-18 ! pay\n  (v:x)  -1 \"a b\"\n  [w:y]  2.5 USD == 3 USD ; n:\n  z:q\n",
 	// 6 (c07NbTx): a shorter transaction, only used as a neighbour in the quick tier
 	"2024-01-15 * (c1) shop ; k: v\n  a:food  $1.50\n  a:cash  = $9\n",
-	// 7 (c07NbTx2): a still shorter one
-	"2024-01-16 pay\n  a:b  1 USD\n  c:d\n",
+	// 7 (c07NbTx2): a still shorter one, with a quoted commodity (a quote that an unbalanced quote
+	// earlier in the file could pair with)
+	"2024-01-16 pay\n  a:b  1 \"U S\"\n  c:d\n",
+	// 8 (c07HeadOnly): a transaction without postings: its header line is directly followed by
+	// the next entry
+	"2024-01-19 memo\n",
 }
 
 const (
-	c07NbTx  = 6
-	c07NbTx2 = 7
+	c07NbTx     = 6
+	c07NbTx2    = 7
+	c07HeadOnly = 8
 )
 
 // ---------- rendering of extracted entries with shifted positions ----------
@@ -337,7 +342,7 @@ func c07Of(idx int, shapes ...int) c07J {
 	j := c07J{idx: idx}
 	for _, k := range shapes {
 		j.ent = append(j.ent, c07Shapes[k])
-		j.endsAtNext = append(j.endsAtNext, k == 0 || k == 1 || k == 2 || k == 5 || k == c07NbTx || k == c07NbTx2)
+		j.endsAtNext = append(j.endsAtNext, k == 0 || k == 1 || k == 2 || k == 5 || k == c07NbTx || k == c07NbTx2 || k == c07HeadOnly)
 	}
 	return j
 }
@@ -408,12 +413,19 @@ func verifC07(j c07J, kind, m int) {
 // follows) and as last entry (a commodity directive with format precedes). The neighbours are
 // short: the cost of a path is the two parses.
 func c07Light(shapes int) c07J {
+	ctx := zzverif.Choice("ctx", 6)
+	switch ctx {
+	case 4: // a header-only transaction directly followed by a P directive
+		return c07Of(1, c07NbTx2, c07HeadOnly, 3)
+	case 5: // ... by a commodity directive with a format sub-directive
+		return c07Of(1, c07NbTx2, c07HeadOnly, 2)
+	}
 	e := zzverif.Choice("e.kind", shapes)
-	switch zzverif.Choice("ctx", 4) {
+	switch ctx {
 	case 0:
 		return c07Of(1, c07NbTx, e, 1)
 	case 1:
-		return c07Of(1, 1, e, c07NbTx)
+		return c07Of(1, 1, e, c07NbTx2)
 	case 2:
 		return c07Of(0, e, c07NbTx)
 	default:
